@@ -2,10 +2,12 @@
    the model is Results/Model.v, proofs are in Results/Proofs*.v and Results/Main.v.
    Terms are IRI s | BNode s | Lit lex dt lang over strings of code points; the Python
    constructor Literal(lex, dt, lang) is taken to keep that triple (its normalisation is C09).
-   The model mirrors the code after the repairs of F11a-F11h (notes/C16.md): no trigger
+   The model mirrors the code after the repairs of F11a-F11i (notes/C16.md): no trigger
    region is left, every theorem below is stated for all well-formed cases. *)
-From RV Require Import Results.Model Results.Proofs Results.ProofsXml Results.ProofsTsv Results.ProofsTsvDoc Results.Main.
+From RV Require Import Results.Model Results.Proofs Results.ProofsXml Results.ProofsTsv Results.ProofsTsvDoc Results.ProofsCsv Results.Main Results.Dispatch.
+From Coq Require Import String.
 Local Open Scope N_scope.
+Local Open Scope list_scope.
 
 (* JSON: parseJsonTerm inverts termToJSON on every term *)
 Theorem C16_json_term : forall t, term_wf t = true ->
@@ -18,13 +20,13 @@ Print Assumptions C16_json_term.
    (bound_of r = [] for them, and the row is still there); an ASK result keeps its answer *)
 Theorem C16_json_result : forall (text : Type) (dumps : json -> text) (loads : text -> json),
   (forall v, loads (dumps v) = v) ->
-  forall vars rows, forallb (row_wf vars) rows = true ->
+  forall vars rows, forallb name_ok vars = true -> forallb (row_wf vars) rows = true ->
     json_parse (loads (dumps (json_serialize None vars rows))) = OSel vars (map bound_of rows)
     /\ rows_ok vars rows (map bound_of rows) = true
     /\ forall b, json_parse (loads (dumps (json_serialize (Some b) vars rows))) = OAsk b.
 Proof.
-  intros text dumps loads H vars rows Hw. split; [|split].
-  - exact (json_select text dumps loads H vars rows Hw).
+  intros text dumps loads H vars rows Hn Hw. split; [|split].
+  - exact (json_select text dumps loads H vars rows Hn Hw).
   - exact (rows_ok_bound_of vars rows Hw).
   - intro b. exact (json_ask text dumps loads H b vars rows).
 Qed.
@@ -40,6 +42,13 @@ Print Assumptions C16_xml_text.
 Theorem C16_xml_attr : forall s, forallb is_xml_char s = true -> xml_read_attr (sax_quoteattr s) = Some s.
 Proof. exact xml_read_attr_ok. Qed.
 Print Assumptions C16_xml_attr.
+
+(* XML, the reader is modelled over a generic element tree (find / findall / tag filters / binding[0] /
+   attribute look-ups of XMLResult.__init__ and parseTerm as they are): on the tree node of a decoded
+   term it computes what parseTerm computes on the term *)
+Theorem C16_xml_parseTerm_tree : forall p, xml_parseTerm_e (tree_of_pterm p) = xml_parseTerm p.
+Proof. exact parseTerm_tree. Qed.
+Print Assumptions C16_xml_parseTerm_tree.
 
 (* XML, one term: element written by write_binding, decoded by the XML reader, parseTerm - any
    well-formed term over XML Chars: empty IRI, empty datatype IRI, CR, falsy values included *)
@@ -95,19 +104,83 @@ Theorem C16_tsv_result : forall c, wf c = true -> c_fmt c = FTsv -> spec_ok c (m
 Proof. exact tsv_ok. Qed.
 Print Assumptions C16_tsv_result.
 
-(* CSV: header, row sequence and the string value of every cell *)
+(* CSV, the csv module: csv.reader (state machine of _csv.c for the dialect the serialiser configures:
+   comma, double quote, doublequote, CRLF, QUOTE_MINIMAL) reads back EVERY table of strings that
+   csv.writer wrote - embedded quotes, commas, CR, LF, empty fields, empty rows, the single empty field -
+   whatever way the text is cut into lines, as long as no line ends inside a field written unquoted *)
+Theorem C16_csv_roundtrip : forall k table,
+  (forall row f, In row table -> In f row -> csv_field_cut k f = false) ->
+  csv_read k (csv_text table) = Some table.
+Proof. exact csv_roundtrip. Qed.
+Print Assumptions C16_csv_roundtrip.
+
+(* ... which no text stream does (newline="" or newline LF): CR and LF make a field quoted *)
+Theorem C16_csv_roundtrip_text : forall k table,
+  k = LUniversal \/ k = LLf -> csv_read k (csv_text table) = Some table.
+Proof. exact csv_roundtrip_text. Qed.
+Print Assumptions C16_csv_roundtrip_text.
+
+(* CSV: header, row sequence and the string value of every cell, as Python's csv module reads them *)
 Theorem C16_csv_cells : forall c, wf c = true -> c_fmt c = FCsv -> spec_ok c (model_obs c) = true.
-Proof. exact csv_main. Qed.
+Proof. exact csv_cells_ok. Qed.
 Print Assumptions C16_csv_cells.
 
-(* model and checker, all four formats, every well-formed case *)
+(* CSV read by rdflib's CSVResultParser: the variables and one dictionary per row whose terms carry the
+   CSV values of the cells (empty value = unbound; the kind of term is not something CSV carries) *)
+Theorem C16_csv_parse : forall k vars rows,
+  (forall row f, In row (csv_serialize vars rows) -> In f row -> csv_field_cut k f = false) ->
+  csv_parse k (csv_text (csv_serialize vars rows))
+  = OSel vars (map (csv_zip vars) (map (fun r => map (fun v => csv_value (cell v r)) vars) rows)).
+Proof. exact csv_parse_serialize. Qed.
+Print Assumptions C16_csv_parse.
+
+Theorem C16_csv_parse_result : forall c, wf c = true -> c_fmt c = FCsvP -> spec_ok c (model_obs c) = true.
+Proof. exact csvp_ok. Qed.
+Print Assumptions C16_csv_parse_result.
+
+(* history (F11i, repaired by 60d20593): with lines cut as str.splitlines cuts them - what the codecs
+   reader around a byte source did - an unquoted field with a form feed is split and the row sequence
+   changes; the case itself is accepted now *)
+Theorem C16_csv_bytes_prefix_refuted :
+  (wf w_F11i = true /\ spec_ok w_F11i (model_obs w_F11i) = true
+   /\ model_obs w_F11i = OSel [vx] [[(vx, Lit [97; 12; 98] None None)]; [(vx, iri_a)]])
+  /\ csv_parse LSplit (csv_text (csv_serialize (c_vars w_F11i) (c_rows w_F11i)))
+     = OSel [vx] [[(vx, Lit [97; 12] None None)]; [(vx, Lit [98] None None)]; [(vx, iri_a)]].
+Proof. exact csv_bytes_prefix_refuted. Qed.
+Print Assumptions C16_csv_bytes_prefix_refuted.
+
+(* model and checker, all formats, every well-formed case *)
 Theorem C16_spec_ok_model : forall c, wf c = true -> spec_ok c (model_obs c) = true.
 Proof. exact spec_ok_model. Qed.
 Print Assumptions C16_spec_ok_model.
 
+(* the Result layer: the parser is chosen by the format name, else by the media type of the content type
+   (its parameters do not matter), else XML; against the plugin tables reflected from the tree under test the
+   four result formats are reached by their W3C media types and their short names *)
+Theorem C16_parse_key_params : forall m params, m <> [] -> existsb (fun c => c =? 59) m = false ->
+  parse_key None (Some (m ++ 59 :: params)) = m.
+Proof. exact parse_key_params. Qed.
+Print Assumptions C16_parse_key_params.
+
+Theorem C16_dispatch_table :
+  (forall params, parse_dispatch None (Some (media_json ++ 59 :: params)) = Some 1)
+  /\ (forall params, parse_dispatch None (Some (media_xml ++ 59 :: params)) = Some 2)
+  /\ (forall params, parse_dispatch None (Some (media_tsv ++ 59 :: params)) = Some 3)
+  /\ (forall params, parse_dispatch None (Some (media_csv ++ 59 :: params)) = Some 4)
+  /\ parse_dispatch None None = Some 2
+  /\ map (fun n => parse_dispatch (Some (s2l n)) None) ["json"; "xml"; "tsv"; "csv"]%string = [Some 1; Some 2; Some 3; Some 4]
+  /\ map (fun n => serialize_dispatch (Some (s2l n))) ["json"; "xml"; "csv"; "txt"]%string = [Some 1; Some 2; Some 4; Some 5]
+  /\ serialize_dispatch None = Some 2.
+Proof. exact dispatch_table_ok. Qed.
+Print Assumptions C16_dispatch_table.
+
+Theorem C16_dispatch_spec_model : forall c, dispatch_spec c (dispatch_obs c) = true.
+Proof. exact dispatch_spec_model. Qed.
+Print Assumptions C16_dispatch_spec_model.
+
 (* Prop-level readings of the checker *)
 Theorem C16_spec_select_reading : forall c vs ps,
-  c_fmt c <> FCsv -> c_ask c = None -> (c_fmt c = FXml -> xml_expressible c = true) ->
+  c_fmt c <> FCsv -> c_fmt c <> FCsvP -> c_ask c = None -> (c_fmt c = FXml -> xml_expressible c = true) ->
   (spec_ok c (OSel vs ps) = true <-> vs = c_vars c /\ Forall2 (row_agrees (c_vars c)) (c_rows c) ps).
 Proof. exact spec_ok_select_reading. Qed.
 Print Assumptions C16_spec_select_reading.
@@ -119,7 +192,7 @@ Proof. exact spec_ok_refusal_reading. Qed.
 Print Assumptions C16_spec_refusal_reading.
 
 Theorem C16_spec_ask_reading : forall c b o,
-  c_fmt c <> FCsv -> c_ask c = Some b -> (spec_ok c o = true <-> o = OAsk b).
+  c_fmt c <> FCsv -> c_fmt c <> FCsvP -> c_ask c = Some b -> (spec_ok c o = true <-> o = OAsk b).
 Proof. exact spec_ok_ask_reading. Qed.
 Print Assumptions C16_spec_ask_reading.
 
@@ -129,6 +202,12 @@ Theorem C16_spec_csv_reading : forall c o,
    o = OCells (c_vars c :: map (fun r => map (fun v => csv_value (cell v r)) (c_vars c)) (c_rows c))).
 Proof. exact spec_ok_csv_reading. Qed.
 Print Assumptions C16_spec_csv_reading.
+
+Theorem C16_spec_csvp_reading : forall c vs ps,
+  c_fmt c = FCsvP ->
+  (spec_ok c (OSel vs ps) = true <-> vs = c_vars c /\ Forall2 (csvp_row_agrees (c_vars c)) (c_rows c) ps).
+Proof. exact spec_ok_csvp_reading. Qed.
+Print Assumptions C16_spec_csvp_reading.
 
 (* history: the TSV row loop before 40b19e31 (kept in the model as tsv_rows_prefix) drops the row
    with nothing bound, the current one keeps it; line splitting as before e84c9b4e on byte sources
@@ -156,7 +235,7 @@ Example C16_nonvacuous :
   let t0 := Lit [48] (Some xsd_integer) None in
   let c := {| c_fmt := FXml; c_ask := None; c_vars := [[120]; [121]];
               c_rows := [[([120], Some t1)]; []; [([120], Some t2)]; [([121], Some (IRI [])); ([120], Some t0)]];
-              c_style := st0; c_bytes := true |} in
+              c_style := st0; c_bytes := true; c_src := 1 |} in
   wf c = true /\ xml_expressible c = true
   /\ model_obs c = OSel [[120]; [121]] [[([120], t1)]; []; [([120], t2)]; [([121], IRI []); ([120], t0)]]
   /\ (wf w_F11b = true /\ xml_expressible w_F11b = false /\ model_obs w_F11b = ORefused)
@@ -164,6 +243,6 @@ Example C16_nonvacuous :
                   c_rows := [[([121], Some (Lit [97; 8232; 39; 34] None None))]; [];
                              [([120], Some t0); ([121], Some (BNode [98; 46; 99]))]];
                   c_style := {| st_sq := true; st_esc_all := true; st_bare := true; st_cross := true |};
-                  c_bytes := true |} in
+                  c_bytes := true; c_src := 1 |} in
      wf c' = true /\ spec_ok c' (model_obs c') = true.
 Proof. vm_compute. repeat split. Qed.
